@@ -65,7 +65,7 @@ def finish_expiry(ctx, binary, p, out):
     tries = []
     for n in range(1, 4):
         try:
-            txt, _ = p.communicate(timeout=180)
+            txt, _ = p.communicate(timeout=600)
         except subprocess.TimeoutExpired:
             p.kill()
             raise vlib.Infra("C16 expiry family timed out")
@@ -87,7 +87,7 @@ def run(ctx):
     cfg = "Throttle_thorough.cfg" if thorough else "Throttle_quick.cfg"
     binary = ctx.go_test_build("plugin/action/throttle")
     exp_proc, exp_out = start_expiry(ctx, binary, 1)          # real time, runs while TLC works
-    rules_res = ctx.tlc_expect_ok("Throttle", "Throttle_rules.cfg", timeout=600, deadlock=False, workers=8)
+    rules_res = ctx.tlc_expect_ok("Throttle", "Throttle_rules.cfg", timeout=1800, deadlock=False, workers=8)
     rule_cases = rules_res.printed
     rules_res.out = ""
     if len(rule_cases) < 19683:
@@ -96,24 +96,24 @@ def run(ctx):
         cases = [r["case"] for r in json.load(open(ctx.replay)) if r["case"].get("s") not in ("expiry", "concurrent", "rules", "keys")]
         cases = cases or [{"s": "ring", "C": 1, "k": 0, "d": 0, "l": [1], "e": [[1, 0, 0, 1, 0, 1, 1, 0]]}]
         total = len(cases)
-        res = ctx.tlc_expect_ok("Throttle", "Throttle_mutant.cfg", timeout=300, deadlock=False, workers=4)
+        res = ctx.tlc_expect_ok("Throttle", "Throttle_mutant.cfg", timeout=900, deadlock=False, workers=4)
     else:
-        res = ctx.tlc_expect_ok("Throttle", cfg, timeout=2400 if thorough else 400, deadlock=False)
+        res = ctx.tlc_expect_ok("Throttle", cfg, timeout=7200 if thorough else 400, deadlock=False)
         cases = res.printed
         res.out = ""
         if len(cases) < 1000:
             raise vlib.Infra("TLC exported only %d histories" % len(cases))
         total = len(cases)
         if thorough:
-            back = ctx.tlc_expect_ok("Throttle", "Throttle_back.cfg", timeout=600, deadlock=False)
+            back = ctx.tlc_expect_ok("Throttle", "Throttle_back.cfg", timeout=1800, deadlock=False)
             cases += back.printed
             back.out = ""
-        ctx.tlc_expect_ok("Throttle", "Throttle_expiry.cfg", timeout=600, deadlock=False, workers=8)
-        ctx.tlc_expect_ok("Throttle", "Throttle_map.cfg", timeout=600, deadlock=False, workers=8)
-        ctx.tlc_expect_ok("Throttle", "Throttle_keys.cfg", timeout=600, deadlock=False, workers=4)
+        ctx.tlc_expect_ok("Throttle", "Throttle_expiry.cfg", timeout=1800, deadlock=False, workers=8)
+        ctx.tlc_expect_ok("Throttle", "Throttle_map.cfg", timeout=1800, deadlock=False, workers=8)
+        ctx.tlc_expect_ok("Throttle", "Throttle_keys.cfg", timeout=1800, deadlock=False, workers=4)
         # every spec mutant must be rejected by a property invariant (the oracle is not vacuous)
         for m in MUTANTS:
-            r = ctx.tlc("Throttle", MUTANT_CFG.get(m, "Throttle_mutant.cfg"), timeout=300, deadlock=False, workers=4,
+            r = ctx.tlc("Throttle", MUTANT_CFG.get(m, "Throttle_mutant.cfg"), timeout=900, deadlock=False, workers=4,
                         overrides={"Mut": '"%s"' % m}, name="Throttle/mutant-%s" % m)
             if r.kind != "invariant" or r.violated not in PROPERTY_INVARIANTS:
                 raise vlib.Infra("spec mutant %s is not rejected by a property invariant (%s %s)" %
@@ -125,7 +125,7 @@ def run(ctx):
         for c in cases:
             f.write(json.dumps(c, separators=(",", ":")) + "\n")
     out = os.path.join(ctx.scratch, "c16_out.json")
-    rc, txt = ctx.run_bin(binary, "^TestVerifC16$", env={"VERIF_CASES": path, "VERIF_OUT": out}, timeout=3000)
+    rc, txt = ctx.run_bin(binary, "^TestVerifC16$", env={"VERIF_CASES": path, "VERIF_OUT": out}, timeout=9000)
     if rc != 0 or not os.path.exists(out):
         raise vlib.Infra("C16 harness failed rc=%s:\n%s" % (rc, txt[-3000:]))
     r = json.load(open(out))
@@ -137,7 +137,7 @@ def run(ctx):
                          (st["OracleMismatch"], st["OracleDetail"]))
 
     conc_out = os.path.join(ctx.scratch, "c16_conc.json")
-    rc, txt = ctx.run_bin(binary, "^TestVerifC16Concurrent$", env={"VERIF_CONC_OUT": conc_out}, timeout=300)
+    rc, txt = ctx.run_bin(binary, "^TestVerifC16Concurrent$", env={"VERIF_CONC_OUT": conc_out}, timeout=900)
     if rc != 0 or not os.path.exists(conc_out):
         raise vlib.Infra("C16 concurrency family failed rc=%s:\n%s" % (rc, txt[-3000:]))
     conc = json.load(open(conc_out))
@@ -153,7 +153,7 @@ def run(ctx):
             f.write(json.dumps(c, separators=(",", ":")) + "\n")
     rules_out = os.path.join(ctx.scratch, "c16_rules_out.json")
     rc, txt = ctx.run_bin(binary, "^TestVerifC16Rules$", env={"VERIF_RULES_CASES": rules_in, "VERIF_RULES_OUT": rules_out},
-                          timeout=600)
+                          timeout=1800)
     if rc != 0 or not os.path.exists(rules_out):
         raise vlib.Infra("C16 rules family failed rc=%s:\n%s" % (rc, txt[-3000:]))
     rul = json.load(open(rules_out))
@@ -162,7 +162,7 @@ def run(ctx):
     ctx.extra["rules_family"] = {k: v for k, v in rul.items() if k != "violations"}
 
     keys_out = os.path.join(ctx.scratch, "c16_keys_out.json")
-    rc, txt = ctx.run_bin(binary, "^TestVerifC16Keys$", env={"VERIF_KEYS_OUT": keys_out}, timeout=600)
+    rc, txt = ctx.run_bin(binary, "^TestVerifC16Keys$", env={"VERIF_KEYS_OUT": keys_out}, timeout=1800)
     if rc != 0 or not os.path.exists(keys_out):
         raise vlib.Infra("C16 key family failed rc=%s:\n%s" % (rc, txt[-3000:]))
     kf = json.load(open(keys_out))
